@@ -70,6 +70,9 @@ func c03Exec(c *Case, generate bool) (*Violation, *execStats) {
 			if ro.Intn(4) == 0 {
 				op.A["self"] = "1"
 			}
+			if ro.Intn(3) == 0 {
+				op.A["share"] = "1"
+			}
 			c.Ops = append(c.Ops, op)
 		} else {
 			op = c.Ops[i]
@@ -232,6 +235,14 @@ func c03StepView(s *treeState, op Op, cur ygot.GoStruct, replica *ygot.GoStruct,
 	next := model.Clone(cur).(ygot.GoStruct)
 	if op.arg("self") != "1" {
 		eg.Mutate(reflect.ValueOf(next).Elem(), s.sch, 0, editParams(op.arg("rate")))
+	}
+	if op.arg("share") == "1" {
+		// the two versions share memory the way path-copied (copy-on-write) trees do: equal
+		// subtrees are one object, a leaf-list that grew or shrank starts at the same address
+		// as its predecessor. Contents are unchanged, so Diff must give the same answer.
+		if n := model.ShareMemory(cur, next, func() bool { return re.Intn(3) > 0 }); n > 0 {
+			s.st.Probes["versions_share_memory"]++
+		}
 	}
 	ma, mb := model.Walk(cur, s.sch, ""), model.Walk(next, s.sch, "")
 	fpA, fpB := ma.Fingerprint(), mb.Fingerprint()
